@@ -122,12 +122,22 @@ def _dot_stream(ctx: Ctx):
             elif r < 0.6:
                 lhs_text[k] = rng.choice([f"log(`{v}`)", "{`" + v + "` + 1}", f"I(`{v}` * 2)"])      # a quoted name inside Python code
         s = (" + ".join(lhs_text) + " ~ " if lhs_text else "") + rng.choice([".", ". - a", ". + a:b", "(.)^2", ". : b", "a + ."])
-        out, kind, res = G.run_impl(s, True, (True, True, False), avail)
-        lits.append(G.case_literal(s, True, (True, True, False), avail, out))
+        ic = rng.random() < 0.7
+        if rng.random() < 0.15:
+            # one-sided: nothing is on a left-hand side, whatever stands before the '.'
+            s = rng.choice(["log(a) + .", "I(b*2) + c + .", "`x y` + .", ". + log(b)", "{a + 1} + ."])
+            lhs = []
+        out, kind, res = G.run_impl(s, ic, (True, True, False), avail)
+        lits.append(G.case_literal(s, ic, (True, True, False), avail, out))
         descr.append({"formula": s, "available": avail})
         strings.append(s)
         ctx.count("dot", "outcome=" + kind)
         ctx.oracle_runs += 1
+        if "~" not in s and s.endswith("+ .") and kind == "ok":
+            side = res._structure["root"]
+            got1 = [t.factors[0].expr for t in side if len(t.factors) == 1 and t.factors[0].expr in avail]
+            if sorted(got1) != sorted(avail):           # (terms written before the '.' keep their earlier place)
+                ctx.fail(f"'.' in the one-sided {s!r} (include_intercept={ic}) with columns {avail} expanded to {got1}, expected every column", {"kind": "dot", "formula": s, "available": avail})
         if s.endswith("~ .") or s == ".":
             want = [v for v in avail if v not in lhs]
             got = None
